@@ -7,8 +7,8 @@
  "replace_calls": {"assignexpr": "stub_assignexpr", "exprassign": "rec_exprassign"}, "replay": false,
  "link_repo": ["type.c"],
  "unwind": 5, "unwindset": ["typecompatible:2", "typecompatible.0:2"],
- "variants": {"A0P1": ["-DV_NA=0", "-DV_NP=1"], "A0P2": ["-DV_NA=0", "-DV_NP=2"], "A1P2": ["-DV_NA=1", "-DV_NP=2"]},
- "canary_variant": "A1P2",
+ "variants": {"A0P1": ["-DV_NA=0", "-DV_NP=1"], "A0P2": ["-DV_NA=0", "-DV_NP=2"], "A1P2": ["-DV_NA=1", "-DV_NP=2"], "A2P2": ["-DV_NA=2", "-DV_NP=2"]},
+ "canary_variant": "A2P2",
  "cflags": ["-DCHECK_VARFEW"],
  "kind": "proof-const-unwind",
  "bound": "0..3 arguments written, 0..2 parameters, with or without ellipsis",
